@@ -27,6 +27,7 @@ import (
 	"verif/internal/core"
 	"verif/internal/gens"
 	"verif/internal/ref/pathref"
+	"verif/internal/ref/scriptref"
 )
 
 const nShards = 16
@@ -1396,6 +1397,19 @@ func report(c *core.Ctx, spec gens.JPExpr, t *tree, repr string, o opT, f *findi
 		c.Fail(core.Sig(name, "slice-inclusive-reading"), cs, len(s)*1000+len(st.show()), g.exp, g.obs+"   ["+o.String()+" "+x.String()+" on "+repr+" form of "+st.show()+"]")
 		return
 	}
+	if g.kind != oneDiffers && sequentialReading(c, s, x, st, repr, o) {
+		// known finding: Set, Del and Modify change the document in place while a
+		// trailing filter that reads it through $ is still being decided for the
+		// later members. Only cases whose whole outcome is what that reading
+		// prescribes are keyed here.
+		name := o.label()
+		if o.Must {
+			name = "Must" + name
+		}
+		cs := caseT{Path: s, Text: x.String(), Data: st.encoded(), Repr: repr, Op: o, Kind: "filter-decided-on-changing-document"}
+		c.Fail(core.Sig(name, "filter-reads-the-document-being-changed", "selection-on-changed-document"), cs, len(s)*1000+len(st.show()), g.exp, g.obs+"   ["+o.String()+" "+x.String()+" on "+repr+" form of "+st.show()+"]")
+		return
+	}
 	cs := caseT{Path: s, Text: x.String(), Data: st.encoded(), Repr: repr, Op: o, Kind: g.kind}
 	size := len(s)*1000 + len(st.show())
 	if repr == "gen" {
@@ -1429,6 +1443,73 @@ func inclusiveReading(c *core.Ctx, spec gens.JPExpr, x jp.Expr, t *tree, repr st
 		}
 	}
 	c.Add("failures_explained_by_the_inclusive_slice_reading", 1)
+	return true
+}
+
+// sequentialReading reports whether the operation, which fails against Get's
+// selection, does exactly what comes out when the trailing filter - one that
+// reads the document through $ - is decided member by member on the document
+// as the operation has changed it so far, instead of on the before-state (Set,
+// Del and Modify work in place; Remove builds a new list and is not concerned).
+func sequentialReading(c *core.Ctx, spec gens.JPExpr, x jp.Expr, t *tree, repr string, o opT) bool {
+	last := spec[len(spec)-1]
+	if len(spec) < 2 || !last.RootFilter() || o.one() || o.base() == "Remove" || spec.HasFrag("desc") {
+		return false
+	}
+	r := pathref.SelectSpec(spec[:len(spec)-1], t.simple, pathref.Variants[0])
+	if r.Open {
+		return false
+	}
+	cur := gens.Clone(t.simple)
+	single := o
+	changedAny := false
+	for _, parent := range r.Hits {
+		pv, ok := getAt(cur, parent.Loc)
+		if !ok {
+			return false
+		}
+		var keys []any
+		switch tp := pv.(type) {
+		case []any:
+			for i := range tp {
+				keys = append(keys, i)
+			}
+		case map[string]any:
+			if len(tp) > 1 {
+				return false // the order in which the members are visited is Go's map order
+			}
+			for k := range tp {
+				keys = append(keys, k)
+			}
+		}
+		for _, k := range keys {
+			loc := append(append(pathref.Loc{}, parent.Loc...), k)
+			v, ok := getAt(cur, loc)
+			if !ok {
+				return false
+			}
+			switch scriptref.Eval(last.F, v, cur) {
+			case scriptref.T:
+				cur = expected(cur, []hit{{Loc: loc, Value: v}}, single)[0]
+				changedAny = true
+			case scriptref.F:
+			default:
+				return false
+			}
+		}
+	}
+	if !changedAny {
+		return false
+	}
+	var data any = gens.Clone(t.simple)
+	if repr == "gen" {
+		data = gens.ToGen(t.simple)
+	}
+	out := execute(c, x, data, repr, o)
+	if out.pv != nil || out.err != nil || !eqTree(gens.Canon(out.root), cur) {
+		return false
+	}
+	c.Add("failures_explained_by_filter_decided_on_the_changing_document", 1)
 	return true
 }
 
